@@ -136,6 +136,7 @@ type Explorer struct {
 	pathCovers  []string
 	known       map[string]*Term
 	httpReqs    []*value
+	httpDoErr   value // set by verifrt.HTTPDoError: what the stubbed Do answers instead of a havoc result
 	thrB        *thread
 	jsonVals    []value
 	mutexIDs    map[*value]int
@@ -631,6 +632,7 @@ func (e *Explorer) resetPath(p []int) {
 	e.pathCovers = nil
 	e.known = map[string]*Term{}
 	e.httpReqs = nil
+	e.httpDoErr = nil
 	e.jsonVals = nil
 	e.mutexIDs = nil
 	e.lockLog = nil
